@@ -1091,3 +1091,112 @@ CHOICE_SET_N = record_contract(
     may_raise={'PyAsn1Error': True, 'IndexError': True},
     note='Set.setComponentByPosition is the callee contract; the slots are a python list of one entry per alternative')
 CONTRACTS = CONTRACTS + [CHOICE_SET_N]
+
+
+# ---- SequenceAndSetBase._cloneComponentValues: every stored member is copied to its position, whatever its state --------------
+class SlotSeq(RecSeqV):
+    """iteration over the slot list of a record: element i is the object stored in slot i (or the noValue sentinel)"""
+
+    def __init__(self, lst):
+        RecSeqV.__init__(self, [], kind='list')
+        self.lst = lst
+
+    @property
+    def length(self):
+        return self.lst.fields['length']
+
+    def elem(self, i):
+        ident = Select(self.lst.fields['ids'], i)
+        e = element(ident)
+        e.methods['__isinstance__'] = lambda ex, self_, nm: IS_CONSTRUCTED_OF(ident) if nm == 'ConstructedAsn1Type' else False
+
+        def clone(ex, self_, *a, **kw):
+            return Obj('Asn1Item', {'copyOf': ident, 'deep': 'cloneValueFlag' in kw, 'flag': kw.get('cloneValueFlag')},
+                       bases=('Asn1Item',), name='member.clone()')
+        e.methods['clone'] = clone
+        return e
+
+
+def _record_self_iterable(ex, env):
+    o = _record_self(ex, env)
+    cv = o.fields['_componentValues']
+    if cv is not NOVALUE:
+        cv.methods['__iter__'] = lambda ex2, self: SlotSeq(self)
+    return o
+
+
+def _record_copied(ex, clone):
+    p, src = clone.fields['present'], clone.fields['copyOf']
+    return And(ForAll([_k], Implies(Select(p, _k), And(_k >= 0, _k < LLEN0, Select(LID0, _k) != NOV,
+                                                       Select(src, _k) == Select(LID0, _k)))), clone.fields['deepOk'])
+
+
+def _record_copied_upto(ex, clone, upto):
+    return ForAll([_k], Implies(And(_k >= 0, _k < toint(upto), Select(LID0, _k) != NOV),
+                                And(Select(clone.fields['present'], _k), Select(clone.fields['copyOf'], _k) == Select(LID0, _k))))
+
+
+RECORD_CLONE_VALUES = record_contract(
+    id='type.univ::SequenceAndSetBase._cloneComponentValues', qual='SequenceAndSetBase._cloneComponentValues',
+    properties=['C19', 'C04', 'C12'],
+    params=dict(cloneValueFlag=PBool(), componentType=PConst(None), self=PDerived(_record_self_iterable),
+                myClone=PDerived(_my_clone)),
+    globals=dict(GR, copied=FnV(_record_copied, 'copied'), copied_upto=FnV(_record_copied_upto, 'copied_upto')),
+    loops={0: Loop(index='i', invariant=['copied(myClone)', 'copied_upto(myClone, i)'],
+                   havoc_fields=['myClone.present', 'myClone.copyOf', 'myClone.deepOk'])},
+    ensures=[
+        ('schema-stays-schema', 'schema ==> (not myClone.cleared and copied(myClone))'),
+        # every stored member -- complete value, partly filled record or placeholder alike: what it holds is its own
+        # clone()'s business -- is copied (not shared) to the same position, constructed members deeply
+        ('every-member-copied-to-its-position', '(not schema) ==> copied_upto(myClone, LLEN0)'),
+        ('nothing-else', 'copied(myClone)'),
+        ('empty-record-stays-a-value', '(not schema and LLEN0 == 0) ==> myClone.cleared'),
+        ('source-untouched', 'schema or list_unchanged(self._componentValues)')],
+    note='member.clone() is an assumed model; the clone\'s setComponentByPosition is the callee contract; enumerate() over a '
+         'python list is the engine\'s sequence iteration')
+CONTRACTS = CONTRACTS + [RECORD_CLONE_VALUES]
+
+
+# ---- SetOf.__eq__: two SET OF values are equal iff they hold the same elements the same number of times (bounded: <= 3 each) --
+NEQ = 3
+_EQ_VALS = {side: [z3.Int('%s.element%d' % (side, i)) for i in range(NEQ)] for side in ('mine', 'theirs')}
+_EQ_LEN = {side: z3.Int('%s.count' % side) for side in ('mine', 'theirs')}
+
+
+def _setof_side(side):
+    def mk(ex, env):
+        n = _EQ_LEN[side]
+        ex.assume(And(n >= 0, n <= NEQ))
+        items = []
+        for i in range(NEQ):
+            if not ex.choose(n > i, '%s-has-element-%d' % (side, i)):
+                break
+            v = _EQ_VALS[side][i]
+            # element equality is the elements' own business: an equivalence, here "same abstract value"
+            items.append(Obj('Asn1Item', {'abstract': v},
+                             {'__eq__': lambda ex2, a, b: a.fields['abstract'] == b.fields['abstract'],
+                              '__ne__': lambda ex2, a, b: a.fields['abstract'] != b.fields['abstract']},
+                             bases=('Asn1Item',), name='%s[%d]' % (side, i)))
+        ex.assume(n == len(items))
+        return Obj('SetOf', {'_componentValues': Obj('dict', {}, name=side + '._componentValues'),
+                             'components': Tup(items, 'list')}, bases=('SetOf',), name=side)
+    return mk
+
+
+def _multiset_equal(ex, a, b):
+    xs = [o.fields['abstract'] for o in a.fields['components'].items]
+    ys = [o.fields['abstract'] for o in b.fields['components'].items]
+    return And([z3.Sum([If(x == e, 1, 0) for x in xs] + [IntVal(0)]) == z3.Sum([If(y == e, 1, 0) for y in ys] + [IntVal(0)])
+                for e in xs + ys] + [z3.BoolVal(True)])
+
+
+SETOF_EQ = Contract(
+    id='type.univ::SetOf.__eq__[setof-vs-setof]', file=U, qual='SetOf.__eq__', properties=['C19', 'C04', 'C03'],
+    params=dict(self=PDerived(_setof_side('mine')), other=PDerived(_setof_side('theirs'))),
+    globals=dict(G, SetOf=ClassV('SetOf'), multiset_equal=FnV(_multiset_equal, 'multiset_equal')),
+    ensures=[('equal-iff-same-elements-same-number-of-times', 'result == multiset_equal(self, other)'),
+             ('read-only', 'len(self.components) == old(len(self.components)) and len(other.components) == old(len(other.components))')],
+    note='element equality is modelled as equality of abstract values (an equivalence); the `components` property (members '
+         'in position order) is an assumed model')
+SETOF_EQ.bounded = 'at most 3 elements on either side (the matching loops are unrolled)'
+CONTRACTS = CONTRACTS + [SETOF_EQ]
